@@ -181,3 +181,140 @@ def own_loopback_after_traffic(maxlen: int, n_before: int, k_between: int) -> st
     finally:
         nt.random, nt.time, nt.message_reader = saved
     return orc.result()
+
+
+# ------------------------------------------------------------------------------------------------ the send loop under a virtual clock
+
+class _VClock:
+    """Stands for the `time` module inside networkingthread: virtual seconds; sleep(d) advances the clock by exactly d and
+    lets the scenario's events (another message is enqueued, stop is scheduled) happen at their virtual instants."""
+
+    def __init__(self):
+        self.now = 1000.0
+        self.events = []       # (instant, action), sorted
+        self.sleeps = 0
+
+    def time(self):
+        return self.now
+
+    def sleep(self, d):
+        self.sleeps += 1
+        if self.sleeps > 5000:
+            raise RuntimeError('send loop does not end')
+        target = self.now + d
+        while self.events and self.events[0][0] <= target:
+            at, action = self.events.pop(0)
+            self.now = max(self.now, at)
+            action()
+        self.now = target
+
+
+class _Draws:
+    """Stands for `random`: the draws of each message come from the scenario (first randint = initial delay, first randrange =
+    first gap), in the order the library asks for them."""
+
+    def __init__(self, values):
+        self.values = list(values)
+
+    def randint(self, a, b):
+        v = self.values.pop(0)
+        assert a <= v <= b, (a, v, b)
+        return v
+
+    def randrange(self, a, b=None):
+        v = self.values.pop(0)
+        assert a <= v < b, (a, v, b)
+        return v
+
+
+def _draw_pool(params):
+    """(initial delay ms, first gap ms) corner and middle values of a parameter set."""
+    hi = params.max_initial_delay_ms
+    inits = sorted({0, hi // 2, hi})
+    gaps = sorted({params.min_delay_ms, (params.min_delay_ms + params.max_delay_ms) // 2, params.max_delay_ms - 1})
+    return inits, gaps
+
+
+def _send_loop(pset_a, ia, ga, second, pset_b, ib, gb, tb, stop, tq):
+    orc = Oracle()
+    saved = nt.random, nt.time
+    try:
+        clock = _VClock()
+        pa = (nt.UNICAST_REPEAT_PARAMS, nt.MULTICAST_REPEAT_PARAMS)[pset_a]
+        pb = (nt.UNICAST_REPEAT_PARAMS, nt.MULTICAST_REPEAT_PARAMS)[pset_b]
+        inits_a, gaps_a = _draw_pool(pa)
+        inits_b, gaps_b = _draw_pool(pb)
+        draws = [inits_a[ia % len(inits_a)], gaps_a[ga % len(gaps_a)]]
+        if second:
+            draws += [inits_b[ib % len(inits_b)], gaps_b[gb % len(gaps_b)]]
+        nt.random, nt.time = _Draws(draws), clock
+        t = nt.NetworkingThread.__new__(nt.NetworkingThread)
+        t._logger = _nolog()
+        t._known_message_ids = collections.deque(maxlen=200)
+        t._quit_send_event = threading.Event()
+        t._send_queue = queue.PriorityQueue(10000)
+        sent, scheduled = [], {}
+        sock = object()
+        t._outbound_selector = types.SimpleNamespace(select=lambda timeout=None: [(types.SimpleNamespace(fileobj=sock), 1)])
+        t._send_msg = lambda enq, _s: sent.append((enq.msg.created_message.p_msg.header_info_block.MessageID, enq.repeat, clock.now))
+
+        def enqueue(mid, params):
+            before = len(t._send_queue.queue)
+            if t._quit_send_event.is_set():
+                return before       # after schedule_stop the library drops new messages (documented with a warning): no claim
+            t.add_outbound_message(_msg(mid), '239.255.255.250', 3702, params)
+            scheduled[mid] = sorted((e.send_time, e.repeat) for e in t._send_queue.queue
+                                    if e.msg.created_message.p_msg.header_info_block.MessageID == mid)
+            return before
+        enqueue('A', pa)
+        span_a = scheduled['A'][-1][0] - clock.now
+        if second:
+            clock.events.append((clock.now + span_a * tb / 4.0, lambda: enqueue('B', pb)))
+        # stop is scheduled (WSDiscovery.stop -> schedule_stop) at some instant; the loop then drains the queue and ends
+        t_stop = clock.now + (span_a * tq / 4.0 if stop else span_a + 5.0)
+        clock.events.append((t_stop, t._quit_send_event.set))
+        clock.events.sort(key=lambda e: e[0])
+        t._run_send()
+        period = max(nt.SEND_LOOP_IDLE_SLEEP, nt.SEND_LOOP_BUSY_SLEEP)
+        for mid, sched in sorted(scheduled.items()):
+            mine = [(rep, at) for m, rep, at in sent if m == mid]
+            params = pa if mid == 'A' else pb
+            orc.check(len(mine) == 1 + params.repeat and len(sched) == 1 + params.repeat, 'transmission_count!=1+repeat')
+            orc.check([rep for rep, _at in mine] == sorted(rep for rep, _at in mine), 'retransmissions_out_of_order')
+            for (rep, at), (due, rep_s) in zip(sorted(mine), sorted(sched, key=lambda x: x[1])):
+                orc.check(rep == rep_s, 'harness:repeat-index-mismatch')
+                orc.check(at >= due - 1e-9, 'datagram_sent_before_its_scheduled_time')
+                orc.check(at <= due + period + 1e-9, 'datagram_sent_later_than_one_polling_period_after_its_scheduled_time')
+    except Exception as ex:  # noqa: BLE001
+        return exc_result(orc, ex, 'send-loop')
+    finally:
+        nt.random, nt.time = saved
+    return orc.result()
+
+
+def send_loop_realises_schedule(pset_a: int, ia: int, ga: int, second: bool, pset_b: int, ib: int, gb: int, tb: int,
+                                stop: bool, tq: int) -> str:
+    """
+    The REAL send loop (_run_send) on a virtual clock with the real queue and the real schedule computation: message A
+    (unicast / multicast parameters, draws from corner / middle values), optionally a second message B enqueued while A's
+    retransmissions are pending (at 0, 1/4 ... 4/4 of A's schedule), optionally a stop scheduled while datagrams are pending.
+    Every datagram leaves not before its scheduled instant and at most one polling period of the loop after it; each
+    message 1 + repeat times, in order.
+    pre: 0 <= pset_a < 2
+    pre: 0 <= ia < 3
+    pre: 0 <= ga < 3
+    pre: 0 <= pset_b < 2
+    pre: 0 <= ib < 3
+    pre: 0 <= gb < 3
+    pre: 0 <= tb < 5
+    pre: 0 <= tq < 5
+    post: __return__ == 'ok'
+    """
+    from vf.hutil import pick, untraced
+    r2, r3, r5 = (0, 1), (0, 1, 2), (0, 1, 2, 3, 4)
+    pset_a, ia, ga, second = pick(pset_a, r2), pick(ia, r3), pick(ga, r3), bool(second)
+    pset_b, ib, gb, tb = (pick(pset_b, r2), pick(ib, r3), pick(gb, r3), pick(tb, r5)) if second else (0, 0, 0, 0)
+    stop = bool(stop)
+    tq = pick(tq, r5) if stop else 0
+    with untraced():
+        return _send_loop(pset_a, ia, ga, second, pset_b, ib, gb, tb, stop, tq)
